@@ -2,5 +2,9 @@
 # Run once after a fresh restore, offline: builds the framework from files on disk only.
 set -e
 export CARGO_NET_OFFLINE=true
+mkdir -p /verif/target /verif/evidence /verif/replays
 cd /verif/sim && cargo build --release --offline
+gcc -shared -fPIC -O2 -o /verif/target/getrandom_shim.so /verif/hashsim/getrandom_shim.c
+cd /verif/sendsync && cargo build --offline
+cd /verif/mirisim && (cargo +nightly miri setup --offline >/dev/null 2>&1 || true) && MIRIFLAGS="" cargo +nightly miri build --offline
 echo "setup ok"
